@@ -11,7 +11,7 @@ import (
 	"verifharness/internal/val"
 )
 
-var c08Floor = []string{"depth.2", "depth.3", "inner.empty", "outer.empty", "mid.empty", "ragged", "where", "item.alias", "item.nonidempotent", "item.star", "item.async", "item.userfn", "mix", "mix.keep", "reexec.after-fault", "opt.vars", "opt.constants"}
+var c08Floor = []string{"depth.2", "depth.3", "inner.empty", "outer.empty", "mid.empty", "ragged", "where", "item.alias", "item.nonidempotent", "item.star", "item.async", "item.userfn", "mix", "mix.keep", "reexec.after-fault", "opt.vars", "opt.constants", "item.aggregate", "item.all-aggregate"}
 
 func init() {
 	fw.Register(&fw.Prop{
@@ -156,6 +156,18 @@ func c08Run(c *fw.Case) {
 			feats = append(feats, "item.async")
 		}
 	}
+	// aggregates without GROUP BY are computed over the inner array they run in
+	hasAgg := false
+	if len(items) > 0 && items[0] != "*" && (force == "item.aggregate" || force == "item.all-aggregate" || c.Chance(0.15)) && !containsStr(feats, "item.userfn") && !containsStr(feats, "item.async") {
+		hasAgg = true
+		if force == "item.all-aggregate" || (force == "" && c.Chance(0.4)) {
+			items = []string{gen.Pick(c.R, []string{"COUNT(*) AS cnt", "SUM(n1) AS sm", "COUNT(*) AS cnt, MAX(n2) AS mx", "MIN(n1) AS mn, SUM(n2) AS sm"})}
+			feats = append(feats, "item.all-aggregate")
+		} else {
+			items = append(items, gen.Pick(c.R, []string{"COUNT(*) AS cnt", "SUM(n1) AS sm", "MAX(n2) AS mx"}))
+			feats = append(feats, "item.aggregate")
+		}
+	}
 	// per-query options reach every inner array: variables and constants
 	useVars := len(items) > 0 && items[0] != "*" && (force == "opt.vars" || c.Chance(0.2))
 	useConst := len(items) > 0 && items[0] != "*" && (force == "opt.constants" || c.Chance(0.15))
@@ -234,6 +246,12 @@ func c08Run(c *fw.Case) {
 			}
 			return true
 		}
+		if len(src) == 0 && hasAgg {
+			// an empty array has no depth: read as an empty row set an
+			// aggregate still yields its one row, read as zero inner arrays it
+			// yields nothing; the property does not choose
+			return true
+		}
 		ga, ok := got.([]any)
 		if !ok && !(got == nil && len(src) == 0) {
 			c.Violate("nesting", fmt.Sprintf("%s: expected an array of %d arrays, got %T", path, len(src), got), det)
@@ -255,7 +273,7 @@ func c08Run(c *fw.Case) {
 	}
 	var top any = o.Rows
 	if len(mm) == 0 {
-		if len(o.Rows) != 0 {
+		if len(o.Rows) != 0 && !hasAgg {
 			c.Violate("nesting", "empty outer array produced rows", det)
 		}
 		return
@@ -264,7 +282,7 @@ func c08Run(c *fw.Case) {
 		return
 	}
 	// mix=> : concatenation of the inner results
-	if force == "mix" || c.Chance(0.5) {
+	if !hasAgg && (force == "mix" || c.Chance(0.5)) {
 		msql := "SELECT " + sel + " FROM `mix=>mm`" + where
 		m := Run(val.CopyMap(doc), msql, opts()...)
 		evals++
@@ -306,7 +324,7 @@ func c08Run(c *fw.Case) {
 	}
 	// a top-level function combined with a keep=> step in the same path:
 	// mix=> over the first K inner arrays
-	if force == "mix.keep" || c.Chance(0.25) {
+	if !hasAgg && (force == "mix.keep" || c.Chance(0.25)) {
 		K := c.Intn(len(mm) + 1)
 		ksql := fmt.Sprintf("SELECT %s FROM `mix=>mm[keep=>(0:%d)]`%s", sel, K, where)
 		k := Run(val.CopyMap(doc), ksql, opts()...)
